@@ -125,7 +125,7 @@ func init() {
 			out.Sample = histSample(p, res)
 			return out
 		},
-		Components: engineWComponents,
+		Components:  engineWComponents,
 		Assumptions: []string{"Ed25519 is unforgeable: a text the harness never signed with a key cannot verify under it", "the set of texts signed per key is recorded by the harness's own signer"},
 	})
 }
@@ -260,8 +260,27 @@ func init() {
 				}
 				p.Ops = append(p.Ops, o)
 			}
-			if n%2 == 1 {
+			switch n % 3 {
+			case 1:
 				p.Cfg.Seam, p.Cfg.Clients, p.Cfg.Jumps, p.Cfg.Strategy = "iface", 1, true, "uniform"
+				p.Tape = genTape(r, 12*len(p.Ops)+8)
+			case 2:
+				// a second client only reads, racing the updates under the scheduler: the read right after an accepted
+				// update (no other writer) must still return exactly what that update returned
+				p.Cfg.Seam, p.Cfg.Clients, p.Cfg.Strategy = "iface", 2, Pick(r, "uniform", "uniform", "hold")
+				p.Cfg.Hold = 1
+				var ops []Op
+				for _, o := range p.Ops {
+					if o.K == "jump" {
+						continue
+					}
+					o.C = 0
+					ops = append(ops, o)
+					if r.Chance(0.7) {
+						ops = append(ops, Op{C: 1, K: "read", L: o.L})
+					}
+				}
+				p.Ops = ops
 				p.Tape = genTape(r, 12*len(p.Ops)+8)
 			}
 			return p
@@ -298,7 +317,7 @@ func init() {
 			out.Sample = histSample(p, res)
 			return out
 		},
-		Components: engineWComponents,
+		Components:  engineWComponents,
 		Assumptions: []string{"the fake clock is the only clock (time.Now inside formats/note's cosignature signer reads it; probed)", "timestamps are compared at one-second granularity: floor(invoke) <= T <= floor(return)"},
 	})
 }
@@ -413,7 +432,7 @@ func init() {
 			out.Sample = histSample(p, res)
 			return out
 		},
-		Components: engineWComponents,
+		Components:  engineWComponents,
 		Assumptions: []string{"'honest log' = a branch of the harness's forking log whose root at the stored size equals the stored root; if the witness holds a garbage root no honest probe exists and none is sent"},
 	})
 }
@@ -421,18 +440,18 @@ func init() {
 // ---------------------------------------------------------------- C05
 
 type linIn struct {
-	Kind  string // update | read
-	LogID string
-	Req   *Request
+	Kind       string // update | read
+	LogID      string
+	Req        *Request
 	Overlapped bool // another write to the same log overlapped this operation
 }
 type linOut struct {
-	Class string
-	Out   string
+	Class    string
+	Out      string
 	NotFound bool
 }
 type linState struct {
-	St  Stored
+	St Stored
 }
 
 func linModel() porcupine.Model {
@@ -715,7 +734,7 @@ func init() {
 			out.Sample = histSample(p, res)
 			return out
 		},
-		Components: engineWComponents,
+		Components:  engineWComponents,
 		Assumptions: []string{"every storage call of the witness goes through the wrapped LogStatePersistence, so the scheduler owns every interleaving that matters; segments between two storage calls touch only task-private state", "on SQLite at most one task is allowed to wait in database/sql's pool at a time (its waiter choice is random and would not replay); who waits is the scheduler's choice", "the free-running -race stress named in the quantifier is a separate, non-replayable extra (./check C05 race), not part of this evidence"},
 	})
 }
@@ -840,7 +859,7 @@ func init() {
 			out.Sample = histSample(p, res)
 			return out
 		},
-		Components: engineWComponents,
+		Components:  engineWComponents,
 		Assumptions: []string{"symbolic operations are resolved against the same log's state only, so a per-log history means the same requests alone as interleaved", "the cross-component identity part (feeders, bastion, distributor, HTTP all using hex(sha256('o:'+origin))) is checked in the Main-level world (C14/C16 runs) and by the bastion/distributor checks (C10, C15)"},
 	})
 }
